@@ -252,6 +252,13 @@ def family():
         for b in names[i + 1:]:
             fam["all_types:%s+%s" % (a, b)] = all_types([a, b])
     fam["all_types:all"] = all_types(names)
+    # rules whose target lists name several markets in an order that is neither the declaration order nor alphabetical
+    # (the caller's lists must come back as they were handed over)
+    unsorted = all_types([])
+    unsorted["HaltU"] = {"class": "TradingHaltRule", "targetMarkets": ["I", "B", "A"], "triggerChangeRate": 0.02, "haltingTimeLength": 2}
+    unsorted["LimitU"] = {"class": "PriceLimitRule", "targetMarkets": ["B", "I", "A"], "triggerChangeRate": 0.05}
+    unsorted["simulation"]["sessions"][1]["events"] = ["LimitU", "HaltU"]
+    fam["all_types:unsorted_target_lists"] = unsorted
     # agents listing several market groups (count + range) in an order different from the declaration order
     fam["multi_group"] = {
         "simulation": {"markets": ["G0", "G1", "G2"], "agents": ["X", "Y"], "sessions": [S(0, 8, True, True, maxNormalOrders=3)]},
